@@ -372,6 +372,13 @@ class Memory():
                 logger.info('Error when removing memory after update: {}'.format(e))
         self.mems = []
 
+        # A read that is still registered belongs to a memory that is dropped here (for instance one started while
+        # the link went down), it would block reading the memory that gets the same id
+        read_requests = list(self._read_requests.values())
+        self._read_requests.clear()
+        for rreq in read_requests:
+            self.mem_read_failed_cb.call(rreq.mem, rreq.addr, rreq.data)
+
         self.nbr_of_mems = 0
         self._getting_count = False
 
